@@ -567,3 +567,29 @@ PROPS["C12"] = {
     "assumptions": ["iterators modelled by (underlying collection, position)", "Select::exec / Join::exec sub-calls, Rows, Table::new, Expr::eval are arbitrary-result events",
                     "Table::has_column / index_for_column_name are uninterpreted predicates of (table, name)"],
 }
+
+# ---------------------------------------------------------------- C05 (partial)
+PROPS["C05"] = {
+    "level": "model_checking", "engine": "mir-smt", "mir": True,
+    "technique": "symbolic execution of the MIR of Update::exec and Insert::exec with their loops unrolled and iteration lengths consistent along a "
+                 "path; Column::is_valid_value / Table::has_column / Column::is_primary_key uninterpreted predicates of their arguments' identities; "
+                 "key-map / key-set operations, the sort, ValueRef::create/remove and the final write as events; z3/cvc5; counterexamples "
+                 "replayed through a public-API key-invariant scenario (inserts and updates on single- and composite-key tables, with reopen)",
+    "claim": "One step from a table that satisfies the invariant (the inductive step; the induction over histories is on paper). UPDATE: every "
+             "assignment is checked (column exists, is_valid_value of that column and value) before any cell changes; when an assigned column is a "
+             "primary-key column, every row's resulting key passes a key-set membership test before the first cell changes, a collision does not "
+             "reach the write, and the rows are re-sorted before being written. INSERT: every batch row's key is tested against the key-ordered "
+             "map of existing rows and against the batch's own key set before anything is interned or written, a collision does not get that far, "
+             "every batch row is inserted into the map, and what is written is the map's values in key order, untouched. NOT decided here: that "
+             "BTreeMap/HashSet/sort implement their contracts (std), that the key vectors handed to them are the primary-key cells of the row "
+             "(closures are not walked), cell validity of inserted rows (C07 decides that gate), is_valid_value itself (C07, engine K), "
+             "delete/insert cycles as such (delete removes rows by retain and cannot reorder), and the reopen part (C20/C01 decide the row codec "
+             "and the save protocol).",
+    "note": "Trusted: MIR translator, iterator models, z3/cvc5, std collections. The property's own anchors name the defect this check found on "
+            "the pinned tree (Update::exec rewrote key cells with no re-check or re-sort), fixed in /repo ae9c1f1.",
+    "bounds": "<= 2 assignments, <= 2 existing rows, <= 2 batch rows (each MIR block visited at most 3 times per path)",
+    "outside": "std collection contracts, key extraction closures, histories longer than one step (by induction on paper), foreign files with unordered rows",
+    "assumptions": ["iterators modelled by (underlying collection, position) with consistent lengths along a path",
+                    "Column::is_valid_value taken as true inside the Insert key law (C07 decides the validation gate)",
+                    "external calls are arbitrary-result events that touch only what they are handed"],
+}
